@@ -23,6 +23,10 @@ import (
 //         the levels around the chosen one and a few far ones, Nice, Nice∘Nice,
 //         Ticks after Nice;
 //   "log" the same for a Log domain.
+// A "lin"/"log" case with Prev set is a history of length two: the scale value
+// first serves the domain Prev (judged in full, optionally Nice'd in place),
+// then its exported Min/Max/Base fields are assigned the case's domain and
+// everything is judged again on the SAME value with the case's reference.
 
 type c17Case struct {
 	Kind     string `json:"kind"`
@@ -36,6 +40,26 @@ type c17Case struct {
 	Vals  []int `json:"vals,omitempty"`
 	Brk   []int `json:"brk,omitempty"`
 	Guess int   `json:"guess,omitempty"`
+	// reused scale value: what it served before the fields were re-assigned
+	Prev *c17Prev `json:"prev,omitempty"`
+}
+
+type c17Prev struct {
+	Min      mon.F  `json:"min"`
+	Max      mon.F  `json:"max"`
+	Base     int    `json:"base"`
+	OMax     int    `json:"omax"`
+	MinLevel int    `json:"min_level"`
+	MaxLevel int    `json:"max_level"`
+	Hist     string `json:"hist"` // "calls": Ticks, CountTicks, TicksAtLevel; "nice": those, then Nice on the value itself
+}
+
+func (p *c17Prev) asCase(kind string) c17Case {
+	return c17Case{Kind: kind, Min: p.Min, Max: p.Max, Base: p.Base, OMax: p.OMax, MinLevel: p.MinLevel, MaxLevel: p.MaxLevel}
+}
+
+func c17PrevOf(a c17Case, hist string) *c17Prev {
+	return &c17Prev{Min: a.Min, Max: a.Max, Base: a.Base, OMax: a.OMax, MinLevel: a.MinLevel, MaxLevel: a.MaxLevel, Hist: hist}
 }
 
 func init() {
@@ -62,13 +86,21 @@ func (c c17Case) opts() scale.TickOptions {
 }
 
 func (c c17Case) String() string {
+	hist := ""
+	if c.Prev != nil && c.Kind != "fl" {
+		what := "Ticks/CountTicks/TicksAtLevel calls"
+		if c.Prev.Hist == "nice" {
+			what += " and Nice"
+		}
+		hist = fmt.Sprintf(" [fields assigned on a scale value that served %v before: %s]", c.Prev.asCase(c.Kind), what)
+	}
 	switch c.Kind {
 	case "fl":
 		return fmt.Sprintf("FindLevel{Max:%d,MinLevel:%d,MaxLevel:%d} guess=%d count=vals%v@breaks%v", c.OMax, c.MinLevel, c.MaxLevel, c.Guess, c.Vals, c.Brk)
 	case "lin":
-		return fmt.Sprintf("Linear{Min:%v,Max:%v,Base:%d} opts{Max:%d,MinLevel:%d,MaxLevel:%d}", float64(c.Min), float64(c.Max), c.Base, c.OMax, c.MinLevel, c.MaxLevel)
+		return fmt.Sprintf("Linear{Min:%v,Max:%v,Base:%d} opts{Max:%d,MinLevel:%d,MaxLevel:%d}%s", float64(c.Min), float64(c.Max), c.Base, c.OMax, c.MinLevel, c.MaxLevel, hist)
 	}
-	return fmt.Sprintf("Log{Min:%v,Max:%v,Base:%d} opts{Max:%d,MinLevel:%d,MaxLevel:%d}", float64(c.Min), float64(c.Max), c.Base, c.OMax, c.MinLevel, c.MaxLevel)
+	return fmt.Sprintf("Log{Min:%v,Max:%v,Base:%d} opts{Max:%d,MinLevel:%d,MaxLevel:%d}%s", float64(c.Min), float64(c.Max), c.Base, c.OMax, c.MinLevel, c.MaxLevel, hist)
 }
 
 // ---------------------------------------------------------------------------
@@ -107,6 +139,7 @@ func (t *c17StepTicker) TicksAtLevel(l int) interface{} {
 type c17FLStats struct {
 	viol                                                                                   int
 	n, unsat, sat, noLowest, windowBinding, guessOutside, guessAbove, guessBelow, maxCalls int64
+	steep, steepTop, bigMax, hugeCount, farUp, farDown                                     int64
 }
 
 func (s *c17FLStats) flush(w *mon.W) {
@@ -123,6 +156,12 @@ func (s *c17FLStats) flush(w *mon.W) {
 	hit(s.guessOutside, "fl-guess-outside-window")
 	hit(s.guessAbove, "fl-guess-above-answer")
 	hit(s.guessBelow, "fl-guess-below-answer")
+	hit(s.steep, "fl-count-drops-from>100x-max-at-answer")
+	hit(s.steepTop, "fl-count-drops-from>100x-max-at-maxlevel")
+	hit(s.bigMax, "fl-max>20")
+	hit(s.hugeCount, "fl-count>=maxint/8")
+	hit(s.farUp, "fl-unlimited-answer-above-100")
+	hit(s.farDown, "fl-unlimited-answer-below--100")
 }
 
 // c17FLRef is the linear scan: the lowest level of the window whose count is
@@ -199,10 +238,29 @@ func c17JudgeFL(w *mon.W, cp *c17Case, st *c17FLStats, t *c17StepTicker) {
 				st.guessAbove++
 			} else if c.Guess < wantL {
 				st.guessBelow++
+				// the count falls from more than 100 times Max to at most
+				// Max within one level, and the search comes from below
+				if (unlimited || wantL > o.MinLevel) && t.count(wantL-1)/100 > o.Max {
+					st.steep++
+					if !unlimited && wantL == o.MaxLevel {
+						st.steepTop++
+					}
+				}
+			}
+			if unlimited && wantL > 100 {
+				st.farUp++
+			} else if unlimited && wantL < -100 {
+				st.farDown++
 			}
 		}
 	} else {
 		st.unsat++
+	}
+	if o.Max > 20 {
+		st.bigMax++
+	}
+	if t.vals[0] >= math.MaxInt/8 {
+		st.hugeCount++
 	}
 	if !unlimited && (c.Guess < o.MinLevel || c.Guess > o.MaxLevel) {
 		st.guessOutside++
@@ -574,7 +632,32 @@ func c17RatIsMultiple(x float64, S *big.Rat) bool {
 	return q.Quo(q, S).IsInt()
 }
 
+// c17JudgeLin judges one Linear case on a fresh scale value or, when c.Prev
+// is set, on a value that has served another domain before: that domain is
+// judged in full on the value (every method is called on the one addressable
+// value, so pointer-receiver state would stick), optionally Nice'd in place,
+// then Min, Max and Base are assigned and the case is judged on the same value.
 func c17JudgeLin(w *mon.W, c c17Case) {
+	if c.Prev == nil {
+		s := scale.Linear{Min: float64(c.Min), Max: float64(c.Max), Base: c.Base}
+		c17JudgeLinOn(w, c, &s)
+		return
+	}
+	a := c.Prev.asCase("lin")
+	s := scale.Linear{Min: float64(a.Min), Max: float64(a.Max), Base: a.Base}
+	c17JudgeLinOn(w, a, &s)
+	if c.Prev.Hist == "nice" {
+		// judged on a copy inside the judge of a; here it leaves its state
+		mon.Call(func() { s.Nice(a.opts()) })
+		w.Hit("lin-reused-scale-after-nice")
+	} else {
+		w.Hit("lin-reused-scale-after-calls")
+	}
+	s.Min, s.Max, s.Base = float64(c.Min), float64(c.Max), c.Base
+	c17JudgeLinOn(w, c, &s)
+}
+
+func c17JudgeLinOn(w *mon.W, c c17Case, sv *scale.Linear) {
 	mn, mx := float64(c.Min), float64(c.Max)
 	lo, hi := math.Min(mn, mx), math.Max(mn, mx)
 	if !(hi > lo) || math.IsInf(hi-lo, 0) || c.OMax < 1 || c.Base == 1 || c.Base < 0 {
@@ -639,13 +722,16 @@ func c17JudgeLin(w *mon.W, c c17Case) {
 	if amb {
 		w.Ambiguous()
 	}
-	w.Distinct(mon.NewHasher().S("lin").F(mn).F(mx).I(c.Base).I(c.OMax).I(c.MinLevel).I(c.MaxLevel).Sum())
+	h := mon.NewHasher().S("lin").F(mn).F(mx).I(c.Base).I(c.OMax).I(c.MinLevel).I(c.MaxLevel)
+	if p := c.Prev; p != nil {
+		h = h.S(p.Hist).F(float64(p.Min)).F(float64(p.Max)).I(p.Base).I(p.OMax).I(p.MinLevel).I(p.MaxLevel)
+	}
+	w.Distinct(h.Sum())
 
 	// ---- Ticks
-	s := scale.Linear{Min: mn, Max: mx, Base: c.Base}
 	var major, minor []float64
 	w.Eval("Linear.Ticks")
-	if p, v := mon.Call(func() { major, minor = s.Ticks(o) }); p {
+	if p, v := mon.Call(func() { major, minor = sv.Ticks(o) }); p {
 		w.Violate("ticks-panic", fmt.Sprintf("%v: Ticks panicked: %v", c, v), c)
 	} else if c17LinLaws(w, c, R, major, minor) {
 		c17LinModel(w, c, R, major, minor, lLo, lHi, hasLo, hasHi)
@@ -659,10 +745,10 @@ func c17JudgeLin(w *mon.W, c c17Case) {
 	if !hasLo {
 		centre = R.natural(c.OMax) + 6
 	}
-	c17LinLevels(w, c, R, centre)
+	c17LinLevels(w, c, R, centre, sv)
 
 	// ---- Nice
-	c17LinNice(w, c, R)
+	c17LinNice(w, c, R, sv)
 }
 
 // c17LinModel: the major ticks must be the lattice of the lowest feasible
@@ -764,8 +850,11 @@ func (R *c17LinRef) matchLong(got []float64, l int) string {
 // c17LinLevels judges CountTicks and TicksAtLevel on the levels around centre
 // and on a few far ones: two finer levels with long tick lists (up to
 // c17FarCount and about 6000 ticks) and three much coarser ones.
-func c17LinLevels(w *mon.W, c c17Case, R *c17LinRef, centre int) {
-	s := scale.Linear{Min: R.lo, Max: R.hi, Base: c.Base}
+func c17LinLevels(w *mon.W, c c17Case, R *c17LinRef, centre int, sv *scale.Linear) {
+	// the value under judgement with its ends in ascending order (the
+	// levels of a reversed domain are not defined)
+	s := *sv
+	s.Min, s.Max = R.lo, R.hi
 	var levels []int
 	fine := map[int]bool{}
 	for _, n := range []int64{c17FarCount, 6000} {
@@ -820,10 +909,10 @@ func c17LinLevels(w *mon.W, c c17Case, R *c17LinRef, centre int) {
 	}
 }
 
-func c17LinNice(w *mon.W, c c17Case, R *c17LinRef) {
+func c17LinNice(w *mon.W, c c17Case, R *c17LinRef, sv *scale.Linear) {
 	o := c.opts()
 	limited := !(c.MinLevel == 0 && c.MaxLevel == 0)
-	n1 := scale.Linear{Min: float64(c.Min), Max: float64(c.Max), Base: c.Base}
+	n1 := *sv
 	w.Eval("Linear.Nice")
 	if p, v := mon.Call(func() { n1.Nice(o) }); p {
 		w.Violate("nice-panic", fmt.Sprintf("%v: Nice panicked: %v", c, v), c)
@@ -910,6 +999,12 @@ func (L *c17LogLevel) mand() int64  { return c17Span(L.mf, L.ml) }
 func (L *c17LogLevel) allow() int64 { return c17Span(L.af, L.al) }
 func (L *c17LogLevel) amb() bool    { return L.mand() != L.allow() }
 
+// c17LogSlack: a power of the (effective) base up to this fraction of the
+// log-width outside the domain (plus the rounding allowance of the
+// logarithms) may be a tick, and Nice may move an end inwards by it: twice
+// the library's 1e-10, as for Linear.
+const c17LogSlack = 2e-10
+
 type c17LogRef struct {
 	lo, hi     float64 // magnitudes, lo < hi
 	neg        bool
@@ -919,6 +1014,7 @@ type c17LogRef struct {
 	ulof, uhif float64
 	W          float64
 	mu, m2     float64 // mandatory / allowed margins in units of log_base
+	band       float64 // 1e-9 of the log-width: outer edge of the hostile band beyond m2 (classes only)
 	rho        float64 // m2 as a relative distance
 	slackDom   bool
 	lcap       int
@@ -953,8 +1049,10 @@ func c17NewLogRef(lo, hi float64, neg bool, base int) *c17LogRef {
 	} else {
 		R.mu = -dl
 	}
-	R.m2 = math.Max(1e-9*R.W, 1e-9/R.lnB) + dl
-	R.rho = math.Expm1(R.m2 * R.lnB)
+	R.m2 = c17LogSlack*R.W + dl
+	R.band = 1e-9 * R.W
+	// as a relative distance; never below a few ulp of the tick value itself
+	R.rho = math.Max(math.Expm1(R.m2*R.lnB), 16*0x1p-52)
 	R.lcap = c17LogCap(base)
 	return R
 }
@@ -1209,7 +1307,41 @@ func c17LogLaws(w *mon.W, c c17Case, R *c17LogRef, major, minor []float64) bool 
 	return good
 }
 
+// c17JudgeLog: as c17JudgeLin. CountTicks and TicksAtLevel of *Log have
+// pointer receivers, so the calls of the first judgement act on the very value
+// whose fields are then re-assigned.
 func c17JudgeLog(w *mon.W, c c17Case) {
+	first := c
+	if c.Prev != nil {
+		first = c.Prev.asCase("log")
+	}
+	lg, err := scale.NewLog(float64(first.Min), float64(first.Max), first.Base)
+	if err != nil {
+		mn, mx := float64(first.Min), float64(first.Max)
+		if first.Base >= 2 && !math.IsNaN(mn) && !math.IsNaN(mx) && !(math.Min(mn, mx) <= 0 && math.Max(mn, mx) >= 0) {
+			w.Violate("newlog-error", fmt.Sprintf("%v: NewLog rejected an in-domain range: %v", first, err), first)
+		}
+		return
+	}
+	c17JudgeLogOn(w, first, &lg)
+	if c.Prev == nil {
+		return
+	}
+	if c.Prev.Hist == "nice" {
+		mon.Call(func() { lg.Nice(first.opts()) })
+		w.Hit("log-reused-scale-after-nice")
+	} else {
+		w.Hit("log-reused-scale-after-calls")
+	}
+	mn, mx := float64(c.Min), float64(c.Max)
+	if mn > mx {
+		mn, mx = mx, mn // as NewLog orders them
+	}
+	lg.Min, lg.Max, lg.Base = mn, mx, c.Base
+	c17JudgeLogOn(w, c, &lg)
+}
+
+func c17JudgeLogOn(w *mon.W, c c17Case, lg *scale.Log) {
 	mn, mx := float64(c.Min), float64(c.Max)
 	if mn > mx {
 		mn, mx = mx, mn
@@ -1274,17 +1406,33 @@ func c17JudgeLog(w *mon.W, c c17Case) {
 		// domain bit for bit: that major tick must be among the minor ticks
 		bf := float64(c.Base)
 		w.HitIf(R.slackDom && (math.Pow(bf, L.E*math.Round(pl)) == lo || math.Pow(bf, L.E*math.Round(ph)) == hi), "log-major-power-bitwise-on-end")
+		// hostile band: a power of the major or minor level's effective base
+		// lies beyond the allowed slack but within 1e-9 of the log-width of an
+		// end, outside the domain (it must not be a tick) or inside it (Nice
+		// must not round the end inwards to it)
+		for _, ll := range []int{lLo, lLo - 1} {
+			if ll < 0 {
+				continue
+			}
+			LL := R.at(ll)
+			if f, l, ok := ref.LogInside(R.ulo, R.uhi, LL.E, R.band); ok && LL.ok && R.band > R.m2 && c17Span(f, l) > LL.allow() {
+				w.Hit("log-power-just-beyond-slack-outside")
+			}
+			f1, l1, ok1 := ref.LogInside(R.ulo, R.uhi, LL.E, -R.m2)
+			f2, l2, ok2 := ref.LogInside(R.ulo, R.uhi, LL.E, -R.band)
+			if ok1 && ok2 && R.band > R.m2 && c17Span(f1, l1) > c17Span(f2, l2) {
+				w.Hit("log-power-just-beyond-slack-inside")
+			}
+		}
 	}
 	if amb {
 		w.Ambiguous()
 	}
-	w.Distinct(mon.NewHasher().S("log").F(mn).F(mx).I(c.Base).I(c.OMax).I(c.MinLevel).I(c.MaxLevel).Sum())
-
-	lg, err := scale.NewLog(mn, mx, c.Base)
-	if err != nil {
-		w.Violate("newlog-error", fmt.Sprintf("%v: NewLog rejected an in-domain range: %v", c, err), c)
-		return
+	h := mon.NewHasher().S("log").F(mn).F(mx).I(c.Base).I(c.OMax).I(c.MinLevel).I(c.MaxLevel)
+	if p := c.Prev; p != nil {
+		h = h.S(p.Hist).F(float64(p.Min)).F(float64(p.Max)).I(p.Base).I(p.OMax).I(p.MinLevel).I(p.MaxLevel)
 	}
+	w.Distinct(h.Sum())
 
 	// ---- Ticks
 	var major, minor []float64
@@ -1346,7 +1494,7 @@ func c17JudgeLog(w *mon.W, c c17Case) {
 		}
 	}
 
-	c17LogNice(w, c, R, lg)
+	c17LogNice(w, c, R, *lg)
 }
 
 func c17LogModel(w *mon.W, c c17Case, R *c17LogRef, major, minor []float64, lLo, lHi int, hasLo, hasHi bool) {
@@ -1562,19 +1710,26 @@ func c17InLogDomain(lo, hi float64) bool {
 }
 
 func c17Run(r *mon.Run) {
-	r.Rule("FindLevel: every non-increasing step count function with <=3 steps on levels -6..6 (thorough -8..8) x Max x every (MinLevel,MaxLevel) window incl. (0,0)=unlimited and inverted ones x every guess, judged against a linear scan, CountTicks calls budgeted. Linear/Log: random, snapped-to-tick, near-slack and fixed domains x bases x Max 1..20 x level limits; each case judges Ticks (laws + lattice model; Linear: a multiple of the spacing up to 2e-10 of the width + 8 ulp outside an end is optional, Log: 1e-9 of the log-width), CountTicks/TicksAtLevel around the chosen level and on far levels (Linear: two finer levels with up to 100000 and ~6000 ticks, long lists judged pairwise + first/last/32 sampled exact values, three far coarser levels; Log: every level up to the last finite effective base), Nice, Nice twice and Ticks after Nice. Non-trivial = hits a class; distinct by hash of the case.")
+	r.Rule("FindLevel: every non-increasing step count function with <=3 steps on levels -6..6 (thorough -8..8) x Max x every (MinLevel,MaxLevel) window incl. (0,0)=unlimited and inverted ones x every guess, judged against a linear scan, CountTicks calls budgeted; sampled step functions with the count values scaled by 1, 1e2, 1e4, MaxInt/8 (per function or per value) x Max in 1..20, next to every value and a hundredth of it, up to MaxInt; all step functions with breakpoints at levels out to +-1000 under no limits and wide windows. Linear/Log: random, snapped-to-tick, near-slack and fixed domains x bases x Max 1..20 x level limits; each case judges Ticks (laws + lattice model; Linear: a multiple of the spacing up to 2e-10 of the width + 8 ulp outside an end is optional, Log: a power of the base up to 2e-10 of the log-width + the rounding allowance of the logarithms outside an end is optional), CountTicks/TicksAtLevel around the chosen level and on far levels (Linear: two finer levels with up to 100000 and ~6000 ticks, long lists judged pairwise + first/last/32 sampled exact values, three far coarser levels; Log: every level up to the last finite effective base), Nice, Nice twice and Ticks after Nice. Reused scale values: a first domain is judged on a value (and optionally Nice'd in place), then Min/Max/Base are assigned a second domain and everything is judged again on the same value. Non-trivial = hits a class; distinct by hash of the case.")
 	r.Assume("Linear laws on the statement's domain: width 1e-9..1e9, |centre|/width <= 1e3; Log domains within 1e-100..1e100",
 		"a multiple of the spacing within 4 ulp of a domain end counts as inside (the repo's own tests pin the end ticks); within 2e-10 of the width + 8 ulp outside it is optional (the statement names the library's 1e-10 slack as the tolerance), and Nice may move an end inwards by at most that",
 		"Log: a major tick inside the closed domain [Min,Max] as float64s (ends included) must be among the minor ticks to 1e-9 relative; one strictly outside (admitted by the slack) is excused, and so are ticks within the tolerance of an end where rounding of the logarithm exceeds the 1e-10 slack (narrow domain far from 1: there the unchanged library's levels disagree about an end tick, e.g. base 3 [3^e(1-1e-5), 3^e] with MinLevel 1)",
 		"Log levels below 0 have no major ticks (CountTicks = MaxInt there by design): CountTicks==len(TicksAtLevel) is asserted for levels >= 0 only; Log level limits stay where Base^(2^level) is finite",
-		"FindLevel with no level limit and every level feasible has no lowest level: any feasible level is accepted")
+		"Log: a power of the (effective) base within 2e-10 of the log-width + 32 ulp of the larger |log_base| position outside an end is optional, and Nice may move an end inwards by at most that (twice the library's 1e-10 slack, as for Linear); level -1 minor ticks are judged on their float64 values with the same relative window",
+		"the domain of a scale is whatever its exported Min/Max/Base fields say at the time of the call: assigning them on a value that has answered calls before must behave like a fresh value",
+		"FindLevel with no level limit and every level feasible has no lowest level: any feasible level is accepted",
+		"FindLevel with no level limits is explored with count functions whose steps lie within levels -1000..1000; answers beyond +-1000 levels are outside the explored range")
 	r.Gate("lin-max<=2-straddling-0", "log-max<=2-straddling-1", "level-limits-binding", "fl-unsatisfiable", "log-negative-domain",
 		"lin-limits-unsatisfiable", "lin-minlevel-binding", "log-limits-unsatisfiable", "log-minlevel-binding",
 		"lin-reversed-domain", "lin-tick-exactly-on-end", "log-tick-on-end", "lin-5x-level", "lin-negative-odd-level",
 		"log-level>=1", "log-minor-level--1", "lin-nice-max>=3", "log-nice-max>=3", "lin-centre-0", "fl-minlevel-binding",
 		"fl-guess-outside-window", "fl-guess-above-answer", "fl-guess-below-answer",
 		"lin-multiple-just-beyond-slack-outside", "lin-multiple-just-beyond-slack-inside", "lin-far-fine-level>4096-ticks",
-		"lin-far-coarse-level", "log-far-coarse-level", "log-major-power-bitwise-on-end")
+		"lin-far-coarse-level", "log-far-coarse-level", "log-major-power-bitwise-on-end",
+		"fl-count-drops-from>100x-max-at-answer", "fl-count-drops-from>100x-max-at-maxlevel", "fl-max>20", "fl-count>=maxint/8",
+		"fl-unlimited-answer-above-100", "fl-unlimited-answer-below--100",
+		"lin-reused-scale-after-calls", "lin-reused-scale-after-nice", "log-reused-scale-after-calls", "log-reused-scale-after-nice",
+		"log-power-just-beyond-slack-outside", "log-power-just-beyond-slack-inside")
 	if err := ref.C17SelfTest(); err != nil {
 		r.Inconclusive("reference self-test failed: " + err.Error())
 		return
@@ -1623,6 +1778,159 @@ func c17Run(r *mon.Run) {
 		}
 	})
 
+	// ---- FindLevel, sampled: the count VALUES scaled. The enumeration above
+	// keeps counts and Max in 0..7; here the values of a step function are
+	// multiplied by 1, 1e2, 1e4 or MaxInt/8 (one factor for the whole
+	// function, or one per value so that the count falls by orders of
+	// magnitude within one level), Max runs over 1..20, the neighbours of the
+	// values and of a hundredth of them, and huge numbers.
+	scales := []int{1, 100, 10000, math.MaxInt / 8}
+	nsc := r.Pick(2500, 40000)
+	r.Parallel("findlevel-scaled", nsc, func(w *mon.W, i int) {
+		rng := w.Rng
+		var st c17FLStats
+		c := c17Case{Kind: "fl"}
+		if i%2 == 0 {
+			f := fs[rng.Intn(len(fs))]
+			sc := scales[1+rng.Intn(len(scales)-1)]
+			c.Brk = f[1]
+			for _, v := range f[0] {
+				c.Vals = append(c.Vals, v*sc)
+			}
+		} else {
+			k := rng.Range(1, 4)
+			seen := map[int]bool{}
+			for len(c.Vals) < k+1 {
+				v := rng.Range(0, 7) * scales[rng.Intn(len(scales))]
+				if !seen[v] {
+					seen[v] = true
+					c.Vals = append(c.Vals, v)
+				}
+			}
+			for a := 0; a < len(c.Vals); a++ { // descending
+				for b := a + 1; b < len(c.Vals); b++ {
+					if c.Vals[b] > c.Vals[a] {
+						c.Vals[a], c.Vals[b] = c.Vals[b], c.Vals[a]
+					}
+				}
+			}
+			for _, b := range rng.Perm(2*lv + 1)[:k] {
+				c.Brk = append(c.Brk, b-lv)
+			}
+			for a := 0; a < len(c.Brk); a++ { // ascending
+				for b := a + 1; b < len(c.Brk); b++ {
+					if c.Brk[b] < c.Brk[a] {
+						c.Brk[a], c.Brk[b] = c.Brk[b], c.Brk[a]
+					}
+				}
+			}
+		}
+		tk := &c17StepTicker{vals: c.Vals, brk: c.Brk}
+		maxes := []int{rng.Range(1, 5), rng.Range(1, 20), rng.Range(6, 20), rng.PickI(21, 50, 99, 100, 101, 1000, 1000000), math.MaxInt, math.MaxInt / 8}
+		for _, v := range c.Vals {
+			for _, m := range []int{v, v - 1, v + 1, v / 100, v/100 - 1, v/100 + 1} {
+				if m >= 1 {
+					maxes = append(maxes, m)
+				}
+			}
+		}
+		type win struct{ mn, mx int }
+		wins := []win{{0, 0}, {-gl, gl}}
+		for len(wins) < 7 {
+			a, b := rng.Range(-gl, gl), rng.Range(-gl, gl)
+			if len(wins) < 6 && a > b {
+				a, b = b, a
+			}
+			if a != 0 || b != 0 {
+				wins = append(wins, win{a, b})
+			}
+		}
+		// a window ending exactly where the count drops
+		if len(c.Brk) > 0 {
+			b := c.Brk[rng.Intn(len(c.Brk))]
+			if a := b - rng.Range(0, 5); a != 0 || b != 0 {
+				wins = append(wins, win{a, b})
+			}
+		}
+		for _, m := range maxes {
+			c.OMax = m
+			for _, wn := range wins {
+				c.MinLevel, c.MaxLevel = wn.mn, wn.mx
+				for c.Guess = -gl; c.Guess <= gl; c.Guess++ {
+					c17JudgeFL(w, &c, &st, tk)
+				}
+				for n := 0; n < 2; n++ {
+					c.Guess = extreme[rng.Intn(len(extreme))]
+					c17JudgeFL(w, &c, &st, tk)
+				}
+			}
+		}
+		st.flush(w)
+		w.Distinct(mon.NewHasher().S("fl-scaled").Is(c.Vals).Is(c.Brk).Sum())
+		if i%997 == 0 && w.WantSample() {
+			w.Sample(map[string]any{"findlevel_function": map[string]any{"vals": c.Vals, "breaks": c.Brk}, "max_values": maxes, "calls": st.n})
+		}
+	})
+
+	// ---- FindLevel, far levels: the count changes hundreds of levels away
+	// from 0, so without level limits (and with wide explicit ones) the answer
+	// lies far outside the levels of the enumeration above.
+	farLv := []int{-1000, -999, -700, -150, -101, -3, 0, 4, 101, 150, 700, 999, 1000}
+	farVals := []int{0, 2, 5, 9}
+	var farFs [][2][]int
+	{
+		var vsets [][]int // strictly decreasing value sequences of length 2..4
+		for mask := 1; mask < 1<<len(farVals); mask++ {
+			var vs []int
+			for b := len(farVals) - 1; b >= 0; b-- {
+				if mask>>b&1 == 1 {
+					vs = append(vs, farVals[b])
+				}
+			}
+			if len(vs) >= 2 {
+				vsets = append(vsets, vs)
+			}
+		}
+		for mask := 1; mask < 1<<len(farLv); mask++ {
+			var bs []int
+			for b := 0; b < len(farLv); b++ {
+				if mask>>b&1 == 1 {
+					bs = append(bs, farLv[b])
+				}
+			}
+			if len(bs) > 3 {
+				continue
+			}
+			for _, vs := range vsets {
+				if len(vs) == len(bs)+1 {
+					farFs = append(farFs, [2][]int{vs, bs})
+				}
+			}
+		}
+	}
+	farMax := []int{1, 3, 6, 10}
+	farWin := [][2]int{{0, 0}, {-1000, 1000}, {-1200, 1200}, {120, 800}, {-800, -120}, {-999, 999}, {-160, 160}}
+	farGuess := []int{0, 1, -1, 7, -8, 99, 100, 101, -99, -100, -101, 149, 150, 151, -149, -150, -151, 500, -500, 699, -701, 998, 999, 1000, 1001, -998, -999, -1000, -1001, 5000, -5000, math.MaxInt, math.MinInt}
+	r.Exhaustive(fmt.Sprintf("FindLevel far levels: all %d strictly decreasing step functions with <=3 steps at levels %v and values from %v x Max %v x windows %v ((0,0) = unlimited) x guesses %v", len(farFs), farLv, farVals, farMax, farWin, farGuess))
+	r.Parallel("findlevel-far-levels", len(farFs), func(w *mon.W, i int) {
+		var st c17FLStats
+		c := c17Case{Kind: "fl", Vals: farFs[i][0], Brk: farFs[i][1]}
+		tk := &c17StepTicker{vals: c.Vals, brk: c.Brk}
+		for _, c.OMax = range farMax {
+			for _, wn := range farWin {
+				c.MinLevel, c.MaxLevel = wn[0], wn[1]
+				for _, c.Guess = range farGuess {
+					c17JudgeFL(w, &c, &st, tk)
+				}
+			}
+		}
+		st.flush(w)
+		w.Distinct(mon.NewHasher().S("fl-far").Is(c.Vals).Is(c.Brk).Sum())
+		if i%211 == 0 && w.WantSample() {
+			w.Sample(map[string]any{"findlevel_function": map[string]any{"vals": c.Vals, "breaks": c.Brk}, "calls": st.n, "max_CountTicks_calls_in_one_search": st.maxCalls})
+		}
+	})
+
 	// ---- fixed cases: the repo's own examples, the probes of the design
 	var fixed []c17Case
 	for _, d := range [][2]float64{{0, 100}, {15.4, 16.6}, {9.9989, 10}, {2, 9}, {1971.98, 1979.97}, {-1, 1}, {-0.3, 0.7}, {100, 0}, {0, 1}, {-5, 5}, {0.1, 0.3}, {-1e9 / 2, 1e9 / 2}, {0, 1e-9},
@@ -1651,166 +1959,241 @@ func c17Run(r *mon.Run) {
 	// ---- Linear
 	nl := r.Pick(12000, 180000)
 	r.Parallel("linear-random", nl, func(w *mon.W, i int) {
-		rng := w.Rng
-		width := rng.LogUniform(1e-9, 1e9)
-		var ratio float64
-		switch rng.Intn(5) {
-		case 0:
-			ratio = 0
-		case 1:
-			ratio = rng.Uniform(-1e3, 1e3)
-		case 2:
-			ratio = rng.Uniform(-1, 1)
-		case 3:
-			ratio = rng.Sign() * rng.LogUniform(1e-3, 1e3)
-		default:
-			ratio = rng.Uniform(-20, 20)
+		if c, ok := c17GenLinRandom(w, w.Rng); ok {
+			c17JudgeLin(w, c)
 		}
-		lo, hi := ratio*width-width/2, ratio*width+width/2
-		if ratio == 0 {
-			lo = -hi
-		}
-		if !c17InLinDomain(lo, hi) {
-			w.Note("lin-generated-outside-domain")
-			return
-		}
-		c17JudgeLin(w, c17LinFinish(rng, c17LinCase(rng, lo, hi)))
 	})
 	ns := r.Pick(8000, 120000)
 	r.Parallel("linear-snapped", ns, func(w *mon.W, i int) {
-		rng := w.Rng
-		c := c17LinCase(rng, 0, 1)
-		// ends on multiples of a nice spacing, optionally pushed off by a
-		// fraction of the width around the library's 1e-10 slack
-		level := rng.Range(-16, 16)
-		if c.Base == 2 || c.Base == 3 {
-			level = rng.Range(-50, 50)
+		if c, ok := c17GenLinSnapped(w, w.Rng, i); ok {
+			c17JudgeLin(w, c)
 		}
-		S := ref.LinSpacing(c.Base, level)
-		Sf, _ := S.Float64()
-		n := int64(rng.Range(1, 40))
-		if rng.Intn(4) == 0 {
-			n = int64(rng.Range(1, 400))
-		}
-		var a int64
-		switch rng.Intn(4) {
-		case 0:
-			a = -int64(rng.Intn(int(n) + 1)) // straddles or touches 0
-		case 1:
-			a = 0
-		default:
-			a = int64(rng.Intn(int(900*n))) * int64(rng.Sign())
-		}
-		var lo, hi float64
-		if rng.Bool() {
-			lo, hi = ref.LinTick(a, S), ref.LinTick(a+n, S)
-		} else {
-			lo, hi = float64(a)*Sf, float64(a+n)*Sf
-		}
-		if i%3 != 0 {
-			wd := hi - lo
-			offs := []float64{0, 0, 3e-9, -3e-9, 1e-8, -1e-8, 2e-10, -2e-10, 5e-11, -5e-11, 1e-12, -1e-12, 1e-13, -1e-13, 1e-3, -1e-3,
-				1.5e-10, -1.5e-10, 3e-10, -3e-10, 4e-10, -4e-10, 7e-10, -7e-10}
-			lo += offs[rng.Intn(len(offs))] * wd
-			hi += offs[rng.Intn(len(offs))] * wd
-			w.Note("lin-near-slack-offsets")
-		}
-		if !c17InLinDomain(lo, hi) {
-			w.Note("lin-generated-outside-domain")
-			return
-		}
-		c.Min, c.Max = mon.F(lo), mon.F(hi)
-		c17JudgeLin(w, c17LinFinish(rng, c))
 	})
 
 	// ---- Log
 	ng := r.Pick(8000, 120000)
 	r.Parallel("log-random", ng, func(w *mon.W, i int) {
-		rng := w.Rng
-		c := c17Case{Kind: "log", Base: c17LogBases[rng.Intn(len(c17LogBases))], OMax: c17PickMax(rng)}
-		var span float64 // decades
-		switch rng.Intn(6) {
-		case 0:
-			span = rng.Uniform(4.35e-5, 0.1)
-		case 1:
-			span = rng.Uniform(0.1, 3)
-		case 2:
-			span = rng.Uniform(30, 200)
-		default:
-			span = rng.Uniform(1, 30)
+		if c, ok := c17GenLogRandom(w, w.Rng); ok {
+			c17JudgeLog(w, c)
 		}
-		var l10 float64
-		switch rng.Intn(4) {
-		case 0: // straddling 1
-			l10 = -rng.Uniform(0, span)
-		case 1:
-			l10 = rng.Uniform(-3, 3)
-		default:
-			l10 = rng.Uniform(-100, 100-span)
-		}
-		if l10 < -100 {
-			l10 = -100
-		}
-		if l10+span > 100 {
-			span = 100 - l10
-		}
-		lo, hi := math.Pow(10, l10), math.Pow(10, l10+span)
-		if !c17InLogDomain(lo, hi) {
-			w.Note("log-generated-outside-domain")
-			return
-		}
-		c.Min, c.Max = mon.F(lo), mon.F(hi)
-		c17JudgeLog(w, c17LogFinish(rng, c))
 	})
 	nt := r.Pick(6000, 90000)
 	r.Parallel("log-snapped", nt, func(w *mon.W, i int) {
+		if c, ok := c17GenLogSnapped(w, w.Rng, i); ok {
+			c17JudgeLog(w, c)
+		}
+	})
+
+	// ---- reused scale values: a second domain assigned to the exported
+	// fields of a value that has already answered calls for a first one
+	nrl := r.Pick(2500, 40000)
+	r.Parallel("linear-reused-scale", nrl, func(w *mon.W, i int) {
 		rng := w.Rng
-		c := c17Case{Kind: "log", Base: c17LogBases[rng.Intn(len(c17LogBases))], OMax: c17PickMax(rng)}
-		b := float64(c.Base)
-		maxExp := int(math.Floor(100 * math.Ln10 / math.Log(b)))
-		var e1, e2 int
-		switch rng.Intn(4) {
-		case 0: // straddles 1
-			e1, e2 = -rng.Range(0, 12), rng.Range(0, 12)
-		case 1: // wide
-			e1 = rng.Range(-maxExp, maxExp)
-			e2 = rng.Range(-maxExp, maxExp)
-		default:
-			e1 = rng.Range(-maxExp, maxExp-1)
-			e2 = e1 + rng.Range(1, 24)
-		}
-		if e1 > e2 {
-			e1, e2 = e2, e1
-		}
-		if e2 > maxExp {
-			e2 = maxExp
-		}
-		if e1 == e2 {
-			if e2 < maxExp {
-				e2++
-			} else {
-				e1--
+		gen := func() (c17Case, bool) {
+			if rng.Bool() {
+				return c17GenLinRandom(w, rng)
 			}
+			return c17GenLinSnapped(w, rng, rng.Intn(3))
 		}
-		lo, hi := math.Pow(b, float64(e1)), math.Pow(b, float64(e2))
-		// ends on minor ticks k*base^e
-		if rng.Intn(3) == 0 {
-			lo *= float64(rng.Range(1, c.Base-1))
+		a, ok1 := gen()
+		c, ok2 := gen()
+		if !ok1 || !ok2 {
+			return
 		}
-		if rng.Intn(3) == 0 && e2 < maxExp {
-			hi *= float64(rng.Range(1, c.Base-1))
+		if rng.Intn(4) == 0 && c.MinLevel == 0 && c.MaxLevel == 0 {
+			c.Base = a.Base // only the domain moves (zooming an axis); level limits are drawn relative to the base
 		}
-		if i%3 != 0 {
+		c.Prev = c17PrevOf(a, []string{"calls", "nice"}[i%2])
+		c17JudgeLin(w, c)
+	})
+	nrg := r.Pick(2500, 40000)
+	r.Parallel("log-reused-scale", nrg, func(w *mon.W, i int) {
+		rng := w.Rng
+		gen := func() (c17Case, bool) {
+			if rng.Bool() {
+				return c17GenLogRandom(w, rng)
+			}
+			return c17GenLogSnapped(w, rng, rng.Intn(3))
+		}
+		a, ok1 := gen()
+		c, ok2 := gen()
+		if !ok1 || !ok2 {
+			return
+		}
+		if rng.Intn(4) == 0 && c.MinLevel == 0 && c.MaxLevel == 0 {
+			c.Base = a.Base
+		}
+		c.Prev = c17PrevOf(a, []string{"calls", "nice"}[i%2])
+		c17JudgeLog(w, c)
+	})
+}
+
+// generators -----------------------------------------------------------------
+
+func c17GenLinRandom(w *mon.W, rng *mon.Rand) (c17Case, bool) {
+	width := rng.LogUniform(1e-9, 1e9)
+	var ratio float64
+	switch rng.Intn(5) {
+	case 0:
+		ratio = 0
+	case 1:
+		ratio = rng.Uniform(-1e3, 1e3)
+	case 2:
+		ratio = rng.Uniform(-1, 1)
+	case 3:
+		ratio = rng.Sign() * rng.LogUniform(1e-3, 1e3)
+	default:
+		ratio = rng.Uniform(-20, 20)
+	}
+	lo, hi := ratio*width-width/2, ratio*width+width/2
+	if ratio == 0 {
+		lo = -hi
+	}
+	if !c17InLinDomain(lo, hi) {
+		w.Note("lin-generated-outside-domain")
+		return c17Case{}, false
+	}
+	return c17LinFinish(rng, c17LinCase(rng, lo, hi)), true
+}
+
+func c17GenLinSnapped(w *mon.W, rng *mon.Rand, i int) (c17Case, bool) {
+	c := c17LinCase(rng, 0, 1)
+	// ends on multiples of a nice spacing, optionally pushed off by a
+	// fraction of the width around the library's 1e-10 slack
+	level := rng.Range(-16, 16)
+	if c.Base == 2 || c.Base == 3 {
+		level = rng.Range(-50, 50)
+	}
+	S := ref.LinSpacing(c.Base, level)
+	Sf, _ := S.Float64()
+	n := int64(rng.Range(1, 40))
+	if rng.Intn(4) == 0 {
+		n = int64(rng.Range(1, 400))
+	}
+	var a int64
+	switch rng.Intn(4) {
+	case 0:
+		a = -int64(rng.Intn(int(n) + 1)) // straddles or touches 0
+	case 1:
+		a = 0
+	default:
+		a = int64(rng.Intn(int(900*n))) * int64(rng.Sign())
+	}
+	var lo, hi float64
+	if rng.Bool() {
+		lo, hi = ref.LinTick(a, S), ref.LinTick(a+n, S)
+	} else {
+		lo, hi = float64(a)*Sf, float64(a+n)*Sf
+	}
+	if i%3 != 0 {
+		wd := hi - lo
+		offs := []float64{0, 0, 3e-9, -3e-9, 1e-8, -1e-8, 2e-10, -2e-10, 5e-11, -5e-11, 1e-12, -1e-12, 1e-13, -1e-13, 1e-3, -1e-3,
+			1.5e-10, -1.5e-10, 3e-10, -3e-10, 4e-10, -4e-10, 7e-10, -7e-10}
+		lo += offs[rng.Intn(len(offs))] * wd
+		hi += offs[rng.Intn(len(offs))] * wd
+		w.Note("lin-near-slack-offsets")
+	}
+	if !c17InLinDomain(lo, hi) {
+		w.Note("lin-generated-outside-domain")
+		return c17Case{}, false
+	}
+	c.Min, c.Max = mon.F(lo), mon.F(hi)
+	return c17LinFinish(rng, c), true
+}
+
+func c17GenLogRandom(w *mon.W, rng *mon.Rand) (c17Case, bool) {
+	c := c17Case{Kind: "log", Base: c17LogBases[rng.Intn(len(c17LogBases))], OMax: c17PickMax(rng)}
+	var span float64 // decades
+	switch rng.Intn(6) {
+	case 0:
+		span = rng.Uniform(4.35e-5, 0.1)
+	case 1:
+		span = rng.Uniform(0.1, 3)
+	case 2:
+		span = rng.Uniform(30, 200)
+	default:
+		span = rng.Uniform(1, 30)
+	}
+	var l10 float64
+	switch rng.Intn(4) {
+	case 0: // straddling 1
+		l10 = -rng.Uniform(0, span)
+	case 1:
+		l10 = rng.Uniform(-3, 3)
+	default:
+		l10 = rng.Uniform(-100, 100-span)
+	}
+	if l10 < -100 {
+		l10 = -100
+	}
+	if l10+span > 100 {
+		span = 100 - l10
+	}
+	lo, hi := math.Pow(10, l10), math.Pow(10, l10+span)
+	if !c17InLogDomain(lo, hi) {
+		w.Note("log-generated-outside-domain")
+		return c17Case{}, false
+	}
+	c.Min, c.Max = mon.F(lo), mon.F(hi)
+	return c17LogFinish(rng, c), true
+}
+
+func c17GenLogSnapped(w *mon.W, rng *mon.Rand, i int) (c17Case, bool) {
+	c := c17Case{Kind: "log", Base: c17LogBases[rng.Intn(len(c17LogBases))], OMax: c17PickMax(rng)}
+	b := float64(c.Base)
+	maxExp := int(math.Floor(100 * math.Ln10 / math.Log(b)))
+	var e1, e2 int
+	switch rng.Intn(4) {
+	case 0: // straddles 1
+		e1, e2 = -rng.Range(0, 12), rng.Range(0, 12)
+	case 1: // wide
+		e1 = rng.Range(-maxExp, maxExp)
+		e2 = rng.Range(-maxExp, maxExp)
+	default:
+		e1 = rng.Range(-maxExp, maxExp-1)
+		e2 = e1 + rng.Range(1, 24)
+	}
+	if e1 > e2 {
+		e1, e2 = e2, e1
+	}
+	if e2 > maxExp {
+		e2 = maxExp
+	}
+	if e1 == e2 {
+		if e2 < maxExp {
+			e2++
+		} else {
+			e1--
+		}
+	}
+	lo, hi := math.Pow(b, float64(e1)), math.Pow(b, float64(e2))
+	// ends on minor ticks k*base^e
+	if rng.Intn(3) == 0 {
+		lo *= float64(rng.Range(1, c.Base-1))
+	}
+	if rng.Intn(3) == 0 && e2 < maxExp {
+		hi *= float64(rng.Range(1, c.Base-1))
+	}
+	if i%3 != 0 {
+		if rng.Bool() {
+			// relative offsets of the ends
 			offs := []float64{0, 0, 1e-7, -1e-7, 3e-9, -3e-9, 1e-10, -1e-10, 1e-12, -1e-12, 1e-14, -1e-14, 2.3e-16, -2.3e-16, 1e-3, -1e-3}
 			lo *= 1 + offs[rng.Intn(len(offs))]
 			hi *= 1 + offs[rng.Intn(len(offs))]
-			w.Note("log-near-slack-offsets")
+		} else {
+			// offsets as a fraction of the log-width, around the library's
+			// 1e-10 slack and the 2e-10 the monitor allows
+			offs := []float64{0, 5e-11, -5e-11, 1.5e-10, -1.5e-10, 3e-10, -3e-10, 4e-10, -4e-10, 7e-10, -7e-10, 3e-9, -3e-9}
+			lw := math.Log(hi / lo)
+			lo *= math.Exp(offs[rng.Intn(len(offs))] * lw)
+			hi *= math.Exp(offs[rng.Intn(len(offs))] * lw)
 		}
-		if !c17InLogDomain(lo, hi) {
-			w.Note("log-generated-outside-domain")
-			return
-		}
-		c.Min, c.Max = mon.F(lo), mon.F(hi)
-		c17JudgeLog(w, c17LogFinish(rng, c))
-	})
+		w.Note("log-near-slack-offsets")
+	}
+	if !c17InLogDomain(lo, hi) {
+		w.Note("log-generated-outside-domain")
+		return c17Case{}, false
+	}
+	c.Min, c.Max = mon.F(lo), mon.F(hi)
+	return c17LogFinish(rng, c), true
 }
